@@ -175,6 +175,9 @@ func runLim(c LimCase, cs *kit.CaseStats) error {
 			cs.Inconclusive("handshake-failed")
 			return nil
 		}
+		// the syncer may call us too (ShareNodes from its peer loop); an inbound
+		// stream nobody reads would block this connection's in-order delivery
+		go conn.Serve(serveQuiet)
 		conns[i] = conn
 	}
 
@@ -386,6 +389,9 @@ func runLim(c LimCase, cs *kit.CaseStats) error {
 		}
 		if len(failed) > 0 {
 			sawDrop = true
+			// (the probe below is an RPC like any other: let the handlers of this
+			// burst return their slots first, or a full subnet drops it)
+			p2px.WaitNoStacks(closeWatchdog, "syncer.(*Syncer).runPeer.func")
 			// a dropped stream leaves the connection usable; a dead connection is
 			// not a drop (and not what this property is about)
 			for _, r := range reqs {
